@@ -300,8 +300,23 @@ def assemble(repo_dir: str, unit: dict, out_path: str):
             linemap.append({"start": start_line, "end": len(out), "file": kv["file"], "item": kv["name"],
                             "repo_line": src.count("\n", 0, decl_start) + 1})
         else:
-            fn = rsrc.find_fn(src, kv["fn"], kv.get("within"), int(kv.get("nth", "0")), masked)
-            text = src[fn.decl_start:fn.body_close + 1]
+            implicit = None
+            try:
+                fn = rsrc.find_fn(src, kv["fn"], kv.get("within"), int(kv.get("nth", "0")), masked)
+                text = src[fn.decl_start:fn.body_close + 1]
+            except rsrc.AnchorLost:
+                # `ifabsent=empty_drop type=<T>`: the function is `Drop::drop` of T.  If T is still defined in
+                # this file but has no `impl Drop` any more, dropping a T runs NO user code: the contract is
+                # checked against the implicit, empty drop (stated in the evidence), not reported as a lost anchor.
+                if kv.get("ifabsent") == "empty_drop" and kv["fn"] == "drop" and "type" in kv \
+                        and not list(rsrc.find_blocks(masked, kv["within"])):
+                    rsrc.find_type(src, "struct", kv["type"], masked)     # raises AnchorLost if T is gone too
+                    class _F: pass
+                    fn = _F(); fn.line = 0
+                    text = "    fn drop(&mut self) {\n    }"
+                    implicit = f"no `impl Drop for {kv['type']}` in {kv['file']}: checked against the implicit empty drop"
+                else:
+                    raise
             original = text
             text = _drop_docs_and_attrs(text, dropped)
             text = _drop_tracing(text, dropped)
@@ -324,7 +339,7 @@ def assemble(repo_dir: str, unit: dict, out_path: str):
             clauses = [c.strip() for c in ctext.split("\n") if c.strip() and not c.strip().startswith("//")]
             functions.append({"function": kv.get("path", kv["fn"]), "file": kv["file"], "line": fn.line,
                               "sha256": sha256(original), "clauses": clauses,
-                              "kind": "function body extracted verbatim (Verus contract inserted)",
+                              "kind": implicit or "function body extracted verbatim (Verus contract inserted)",
                               "dropped": dropped})
             linemap.append({"start": start_line, "end": len(out), "file": kv["file"], "item": kv.get("path", kv["fn"]),
                             "repo_line": fn.line, "contract": label})
